@@ -540,10 +540,12 @@ def run_check(pid, tier, seed, jobs):
           % (pid, tier, agg["runs"], wall_s, int(agg["runs"] / max(wall_s, 1e-9) * 3600),
              agg["sim_time"], sum(agg["faults"].values()), len(new_violations), len(known_hit)))
     if harness_errors:
-        print("HARNESS-ERROR (exit 2):")
+        # runs the harness could not classify (crashed worker, spent step budget, non-reproducing replay).  With
+        # reproduced violations in hand the verdict is still "violation" (exit 1); alone they make the run void (exit 2).
+        print("HARNESS-ERROR%s:" % (" (besides the violations above)" if new_violations else " (exit 2)"))
         for h in harness_errors[:10]:
             print("  " + str(h).replace("\n", "\n  "))
-        return 2
+        return 1 if new_violations else 2
     if agg["runs"] == 0:
         print("HARNESS-ERROR: no runs executed")
         return 2
